@@ -153,3 +153,141 @@ Example demo_context :
     [CLine 1 ":: Start" false; CBoundary "inc.bard"; CLine 1 ":: Inc" false; CLine 2 "Hello {x" true;
      CBoundary "main.bard"; CLine 3 "Tail." false]).
 Proof. vm_compute. reflexivity. Qed.
+
+(* =========================================================================================== *)
+(* The index a site passes IS the construct's line (Proofs/DiagCulprit.v): statements about parse_real *)
+(* =========================================================================================== *)
+From Coq Require Import String List Bool Arith.
+From Bardic Require Import PyStr ParseBase ParseLine ParseMain ParseBlocks ParseBlocksInst ParseAllProofs DiagCulprit.
+Import ListNotations.
+Local Open Scope string_scope.
+Local Close Scope Z_scope.
+Local Open Scope nat_scope.
+Local Open Scope list_scope.
+
+(* ---- C14, second half: the index a raise site passes IS the line of the malformed construct (Proofs/DiagCulprit.v) ---- *)
+
+(* The comment pre-pass keeps every line in place ... *)
+Theorem prepass_length : forall ls, length (prepass ls) = length ls.
+Proof. exact prepass_length_lemma. Qed.
+Print Assumptions prepass_length.
+
+(* ... and only removes a `// comment` / trailing blanks at the end of a line: an index into the pre-passed list is an
+   index into the author's text. *)
+Theorem prepass_line_is_prefix : forall ls i l,
+  nth_error (prepass ls) i = Some l -> exists l0, nth_error ls i = Some l0 /\ startswith l0 l = true.
+Proof. exact prepass_line_is_prefix_lemma. Qed.
+Print Assumptions prepass_line_is_prefix.
+
+(* Every SyntaxError of the compiler model carries an index inside the source (`located` excludes no site). *)
+Theorem diag_index_in_range : forall pp is_call ls site i,
+  parse_real pp is_call ls = PDiag (DSyntax site i) -> located site = true -> i < length ls.
+Proof. exact diag_index_in_range_lemma. Qed.
+Print Assumptions diag_index_in_range.
+
+(* Every SyntaxError is located on the malformed line (culprit), or is of one of the four no-line / sub-list kinds. *)
+Theorem diag_classified : forall pp is_call ls site i,
+  parse_real pp is_call ls = PDiag (DSyntax site i) ->
+  i < length ls /\
+  (culprit_at (prepass ls) site i \/
+   (bsite site = true /\ raised_in_loop_body (prepass ls) site i) \/
+   (csite site = true /\ i = 0 /\ raised_in_block (prepass ls) site) \/
+   (csite site = true /\ unplaced_at (prepass ls) site i) \/
+   (callsite site = true /\ i = 0)).
+Proof. exact diag_classified_lemma. Qed.
+Print Assumptions diag_classified.
+
+(* The 26 main-loop sites and the 14 block sites: the diagnostic's index is the line of the malformed construct (the
+   opening line for unclosed blocks), unless a block site was raised while a @for body was re-parsed (F14b). *)
+Theorem culprit_covered_sites : forall pp is_call ls site i,
+  parse_real pp is_call ls = PDiag (DSyntax site i) -> covered site = true ->
+  (exists l, nth_error (prepass ls) i = Some l /\ culprit site l = true) \/
+  (bsite site = true /\ raised_in_loop_body (prepass ls) site i).
+Proof. exact culprit_covered_sites_lemma. Qed.
+Print Assumptions culprit_covered_sites.
+
+Theorem culprit_main_sites : forall pp is_call ls site i,
+  parse_real pp is_call ls = PDiag (DSyntax site i) -> msite site = true ->
+  exists l, nth_error (prepass ls) i = Some l /\ culprit site l = true.
+Proof. exact culprit_main_sites_lemma. Qed.
+Print Assumptions culprit_main_sites.
+
+Theorem culprit_block_sites_outside_loops : forall pp is_call ls site i,
+  parse_real pp is_call ls = PDiag (DSyntax site i) -> bsite site = true ->
+  no_loop_opener (prepass ls) = true ->
+  exists l, nth_error (prepass ls) i = Some l /\ culprit site l = true.
+Proof. exact culprit_block_sites_outside_loops_lemma. Qed.
+Print Assumptions culprit_block_sites_outside_loops.
+
+(* content sites: only part of the raise sites have a line *)
+Theorem culprit_content_sites_partial : forall pp is_call ls site i,
+  parse_real pp is_call ls = PDiag (DSyntax site i) -> csite site = true ->
+  (exists l, nth_error (prepass ls) i = Some l /\ culprit site l = true) \/
+  (i = 0 /\ raised_in_block (prepass ls) site) \/
+  unplaced_at (prepass ls) site i.
+Proof. exact culprit_content_sites_partial_lemma. Qed.
+Print Assumptions culprit_content_sites_partial.
+
+Theorem content_braces_outside_blocks : forall pp is_call ls i,
+  parse_real pp is_call ls = PDiag (DSyntax "content:braces" i) ->
+  no_block_opener (prepass ls) = true ->
+  (forall l, nth_error (prepass ls) i = Some l -> site_is (parse_choice_line l) "content:braces" = false) ->
+  exists l, nth_error (prepass ls) i = Some l /\ culprit "content:braces" l = true.
+Proof. exact content_braces_outside_blocks_lemma. Qed.
+Print Assumptions content_braces_outside_blocks.
+
+(* the "call:*" sites never have a line; and no site name is missing from the four lists *)
+Theorem call_sites_carry_no_line : forall pp is_call ls site i,
+  parse_real pp is_call ls = PDiag (DSyntax site i) -> callsite site = true -> i = 0.
+Proof. exact call_sites_carry_no_line_lemma. Qed.
+Print Assumptions call_sites_carry_no_line.
+
+Theorem every_site_is_known : forall pp is_call ls site i,
+  parse_real pp is_call ls = PDiag (DSyntax site i) -> known_site site = true.
+Proof. exact every_site_is_known_lemma. Qed.
+Print Assumptions every_site_is_known.
+
+(* F14b witnesses: the index is NOT the line (sub-list index of a loop body; dummy 0 inside a block; dummy 0 of the
+   post pass) *)
+Theorem loop_body_index_is_not_the_line_refuted :
+  exists pp is_call ls site i l,
+    parse_real pp is_call ls = PDiag (DSyntax site i) /\ bsite site = true /\
+    nth_error (prepass ls) i = Some l /\ culprit site l = false /\
+    nth_error (prepass ls) 7 = Some "  @endif:" /\ culprit site "  @endif:" = true.
+Proof. exact loop_body_index_is_not_the_line_refuted_lemma. Qed.
+Print Assumptions loop_body_index_is_not_the_line_refuted.
+
+Theorem block_content_has_no_line_refuted :
+  exists pp is_call ls site l,
+    parse_real pp is_call ls = PDiag (DSyntax site 0) /\ csite site = true /\
+    nth_error (prepass ls) 0 = Some l /\ culprit site l = false /\
+    nth_error (prepass ls) 3 = Some "  bad {brace" /\ culprit site "  bad {brace" = true.
+Proof. exact block_content_has_no_line_refuted_lemma. Qed.
+Print Assumptions block_content_has_no_line_refuted.
+
+Theorem call_target_has_no_line_refuted :
+  exists pp is_call ls site l,
+    parse_real pp is_call ls = PDiag (DSyntax site 0) /\ callsite site = true /\
+    nth_error (prepass ls) 0 = Some l /\ culprit site l = false.
+Proof. exact call_target_has_no_line_refuted_lemma. Qed.
+Print Assumptions call_target_has_no_line_refuted.
+
+(* ---- non-vacuity: the premise is satisfiable and the culprit is the line one expects ---- *)
+Example culprit_demo_choice :
+  parse_real ex_pp (fun _ => true) [":: Start // c"; "Hello.   // note"; "+ [Go] Start // oops"]
+    = PDiag (DSyntax "choice:missing-arrow" 2) /\
+  nth_error (prepass [":: Start // c"; "Hello.   // note"; "+ [Go] Start // oops"]) 2 = Some "+ [Go] Start" /\
+  culprit "choice:missing-arrow" "+ [Go] Start" = true /\ culprit "choice:missing-arrow" "Hello." = false.
+Proof. vm_compute. repeat split; reflexivity. Qed.
+
+Example culprit_demo_unclosed_if_is_the_opening_line :
+  parse_real ex_pp (fun _ => true) [":: Start"; "Hello."; "t"; "@if x:"; "a"; "b"] = PDiag (DSyntax "if-unclosed" 3) /\
+  culprit "if-unclosed" "@if x:" = true /\ culprit "if-unclosed" "b" = false.
+Proof. vm_compute. repeat split; reflexivity. Qed.
+
+Example culprit_demo_nested_block :
+  parse_real ex_pp (fun _ => true) [":: Start"; "Hello."; "@if x:"; "  a"; "  @for i in xs"; "  b"; "  @endfor"; "@endif"]
+    = PDiag (DSyntax "for-missing-colon" 4) /\
+  culprit "for-missing-colon" "  @for i in xs" = true.
+Proof. vm_compute. repeat split; reflexivity. Qed.
+
